@@ -413,6 +413,31 @@ PROPS = {
                       'decided for every case',
         'level_note': 'catalogue values only',
     },
+    'C06': {
+        'sources': ['src/transform/estimation/FindRigidTransformationByICP.cpp', 'src/transform/estimation/RansacRigidTransformationModel.cpp',
+                    'src/transform/estimation/FindRigidTransformationBySVD.cpp', 'src/transform/estimation/FindRigidTransformationByLeastSquares.cpp',
+                    'src/regression/ransac/Ransac.cpp', 'src/regression/ransac/RansacModel.cpp', 'src/regression/ransac/RansacIterations.cpp',
+                    'src/regression/ransac/RansacRandomCorrespondences.cpp', 'src/regression/leastsquares/LeastSquares.cpp',
+                    'src/pointset/KdTree.cpp', 'src/pointset/algorithms/NormalAndCurvatureEstimation.cpp',
+                    'src/pointset/algorithms/PreconditionedPointSet.cpp', 'src/pointset/algorithms/PointSetPreconditioner.cpp',
+                    'src/pointset/algorithms/Correspondence.cpp'],
+        'harness': 'c06_icp.cpp',
+        'flavour': 'plain',
+        'level': 'exploration',
+        'engine': 'lattice',
+        'rule': 'full lattice displacement (tx, ty, theta) of the reference scan over the operating envelope (corners and zero '
+                'included) x four 2D point types through a freshly constructed ICP; full lattice of synthetic correspondence '
+                'sets (size x outlier fraction x outlier placement x outlier displacement x motion x eight point types x '
+                'estimation mode) through a freshly constructed RANSAC model, each compared with the truth and with the '
+                'outlier-free run. non-trivial = non-zero displacement (ICP), at least one outlier (RANSAC).',
+        'assumptions': ['the sampling engine inside the RANSAC model is default-seeded per object, so a fresh estimator is a pure function of its inputs (replay determinism is checked by the runner)',
+                        'the linearised point-to-plane RANSAC mode is only asked for rotations up to 1e-3 rad: its own model error is theta^2 x extent regardless of outliers'],
+        'tiers': {'quick': {'deadline': 500, 'case_timeout': 60}, 'thorough': {'deadline': 3300, 'case_timeout': 60}},
+        'technique': 'bounded-exhaustive input lattice enumeration on the real ICP / RANSAC pipeline, truth and outlier-free differential oracle',
+        'level_text': 'complete enumeration of a displacement lattice that covers the whole operating envelope including its '
+                      'corners, and of an outlier-configuration lattice, on freshly constructed estimators',
+        'level_note': 'lattice values only; one scan',
+    },
 }
 
 ENGINES = [
